@@ -143,3 +143,23 @@ def finish(run, prop, findings, broken, replay_how):
         run.violation({"property": prop, "broken": broken,
                        "note": "a proof obligation, the translation or the model/code correspondence no longer checks and the search found no failing input"},
                       no_input=True)
+
+
+# ---- C04 support: `harness-seg malformed <n> [thorough]` (entries segment, segment-lz4, lz4-raw, lz4-len, snappy-len)
+def malformed_segment_terms(recs):
+    """(id, Gallina bool term) for every segment / segment-lz4 record of the malformed run: the term is true iff the
+    decoder model (coq/model/Segment.v) has the same outcome class (ok/err) and, when ok, the same decoded observables."""
+    terms = []
+    for r in recs:
+        if r.get("entry") not in ("segment", "segment-lz4") or r.get("outcome") not in ("ok", "err"):
+            continue
+        t = raw_case_term(r)
+        if t is not None:
+            terms.append((int(r["id"]), t))
+    return terms
+
+
+def malformed_segment_mismatches(recs, name="Cases_C04_seg", shards=4):
+    """Runs the decoder model on the segment inputs of a malformed run. Returns (ok, mismatching_ids, error_text).
+    Requires model/SegGen.vo to be built (vlib.coq_make(["model/SegGen.vo"]) under vlib.Lock())."""
+    return eval_cases(name, malformed_segment_terms(recs), shards=shards)
